@@ -1,4 +1,5 @@
 import CandidModel.Basic
+import CandidModel.Gen.Consts
 /-
   Principal text form (rust/ic_principal/src/lib.rs): CRC32 (crc32fast, modelled bit-serially),
   RFC 4648 base32 without padding (data_encoding::BASE32_NOPAD, modelled arithmetically: the byte
@@ -16,8 +17,8 @@ def PErr.name : PErr → String
   | .textTooLong => "TextTooLong" | .checkSequenceNotMatch => "CheckSequenceNotMatch"
   | .abnormalGrouped => "AbnormalGrouped"
 
-def maxLen : Nat := 29
-def crcLen : Nat := 4
+def maxLen : Nat := Gen.principalMaxLen
+def crcLen : Nat := Gen.principalCrcLen
 
 /-! ### CRC-32 (IEEE, reflected, polynomial 0xEDB88320) -/
 def crcStep (c : Nat) : Nat := if c % 2 = 1 then (c / 2) ^^^ 0xEDB88320 else c / 2
